@@ -29,23 +29,44 @@ theorem recvN_add (a b : Nat) (s : St) : recvN (a + b) s = recvN b (recvN a s) :
 /-- some registered stream can yield an item right now -/
 def Avail (s : St) : Prop := ∃ k, s.reg k = .inMap ∧ (s.peer k).q ≠ []
 
+/-- nothing that already returned `Pending` in this call has an event queued — true of every
+call in which the budget never ran out: such a stream is armed, its token is the armed waker -/
+def SeenClean (s : St) : Prop := ∀ j, s.seen.contains j = true → cnt s.heap j = 0
+
 theorem progress_aux : ∀ (m : Nat) (s : St), s.heap.length = m → Inv s → s.pc = .a → Avail s →
+    s.exhausted = false → SeenClean s →
     ∃ n, n ≤ 3 * m ∧ (recvN n s).pc = .idle ∧ (recvN n s).out.length = s.out.length + 1 := by
   intro m
   induction m using Nat.strongRecOn with
   | _ m ih =>
-    intro s hm hinv hpc ⟨k, hreg, hq⟩
+    intro s hm hinv hpc ⟨k, hreg, hq⟩ hex hsc
     have hev := avail_has_event s hinv k hreg (Or.inl hq)
     cases hpop : popMin s.heap with
     | none => have := popMin_none hpop; simp [this, cnt] at hev
     | some er =>
       obtain ⟨⟨t, k'⟩, rest⟩ := er
       have hlen := popMin_length hpop
+      -- the popped key has an event, so it is not one of the streams seen pending in this call
+      have hk'seen : s.seen.contains k' = false := by
+        cases hc : s.seen.contains k' with
+        | false => rfl
+        | true =>
+          have h0 := hsc k' hc
+          have := popMin_cnt hpop k'
+          simp at this; omega
+      have hnm : k' ∉ s.seen := by simpa using hk'seen
+      have hA : step s .recvStep = doAcore s := by
+        simp [step, doRecv, hpc, doA, hpop, hnm]
+      have hrestclean : ∀ j, s.seen.contains j = true → cnt rest j = 0 := by
+        intro j hj
+        have := popMin_cnt_le hpop j
+        have := hsc j hj
+        omega
       by_cases hk' : s.reg k' = .inMap
       · -- the event's stream is checked out and polled
         have h1 : step s .recvStep =
             { s with waker := true, heap := rest, reg := upd s.reg k' .out, pc := .b t k' } := by
-          simp [step, doRecv, hpc, doA, hpop, hk']
+          rw [hA]; simp [doAcore, hpop, hk']
         have hinv1 : Inv (step s .recvStep) := step_inv s _ hinv
         have e3 : ∀ x : St, recvN 3 x = step (step (step x .recvStep) .recvStep) .recvStep := fun _ => rfl
         cases hqk : (s.peer k').q with
@@ -54,12 +75,12 @@ theorem progress_aux : ∀ (m : Nat) (s : St), s.heap.length = m → Inv s → s
           have h2 : step (step s .recvStep) .recvStep =
               { s with waker := true, heap := rest, reg := upd s.reg k' .out,
                        peer := upd s.peer k' { s.peer k' with q := q' }, pc := .c t k' (.some item) } := by
-            rw [h1]; simp [step, doRecv, doB, hqk]
+            rw [h1]; simp [step, doRecv, doB, hex, doBcore, hqk]
           have h3 : recvN 3 s =
               { s with waker := true, heap := (s.counter, k') :: rest, counter := s.counter + 1,
                        reg := upd (upd s.reg k' .out) k' .inMap,
                        peer := upd s.peer k' { s.peer k' with q := q' }, pc := .idle,
-                       out := s.out ++ [(k', item)] } := by
+                       out := s.out ++ [(k', item)], exhausted := false } := by
             rw [e3, h2]; simp [step, doRecv, doC]
           exact ⟨3, by omega, by rw [h3], by rw [h3]; simp⟩
         | nil =>
@@ -68,7 +89,7 @@ theorem progress_aux : ∀ (m : Nat) (s : St), s.heap.length = m → Inv s → s
           · -- EOF: the stream is dropped, back to A with a shorter heap
             have h2 : step (step s .recvStep) .recvStep =
                 { s with waker := true, heap := rest, reg := upd s.reg k' .out, pc := .c t k' .none } := by
-              rw [h1]; simp [step, doRecv, doB, hqk, hcl]
+              rw [h1]; simp [step, doRecv, doB, hex, doBcore, hqk, hcl]
             have h3 : recvN 3 s =
                 { s with waker := true, heap := rest, reg := upd (upd s.reg k' .out) k' .gone, pc := .a } := by
               rw [e3, h2]; simp [step, doRecv, doC]
@@ -78,19 +99,23 @@ theorem progress_aux : ∀ (m : Nat) (s : St), s.heap.length = m → Inv s → s
               refine ⟨k, ?_, ?_⟩
               · rw [h3]; simp [upd, Ne.symm hkk, hreg]
               · rw [h3]; simpa using hq
+            have hsc3 : SeenClean (recvN 3 s) := by
+              rw [h3]; intro j hj; exact hrestclean j hj
             obtain ⟨n, hn, hp, ho⟩ := ih rest.length (by omega) (recvN 3 s) (by rw [h3]) hinv3 (by rw [h3]) hav
+              (by rw [h3]; exact hex) hsc3
             refine ⟨3 + n, by omega, ?_, ?_⟩
             · rw [recvN_add]; exact hp
             · rw [recvN_add, ho, h3]
-          · -- Pending: armed, put back, back to A with a shorter heap
+          · -- Pending: armed, put back, remembered as seen, back to A with a shorter heap
             have hcl' : (s.peer k').closed = false := by simpa using hcl
             have h2 : step (step s .recvStep) .recvStep =
                 { s with waker := true, heap := rest, reg := upd s.reg k' .out,
                          peer := upd s.peer k' { s.peer k' with armed := some t }, pc := .c t k' .pend } := by
-              rw [h1]; simp [step, doRecv, doB, hqk, hcl']
+              rw [h1]; simp [step, doRecv, doB, hex, doBcore, hqk, hcl']
             have h3 : recvN 3 s =
                 { s with waker := true, heap := rest, reg := upd (upd s.reg k' .out) k' .inMap,
-                         peer := upd s.peer k' { s.peer k' with armed := some t }, pc := .a } := by
+                         peer := upd s.peer k' { s.peer k' with armed := some t }, pc := .a,
+                         seen := k' :: s.seen } := by
               rw [e3, h2]; simp [step, doRecv, doC]
             have hinv3 : Inv (recvN 3 s) := by
               rw [e3]; exact step_inv _ _ (step_inv _ _ hinv1)
@@ -98,34 +123,71 @@ theorem progress_aux : ∀ (m : Nat) (s : St), s.heap.length = m → Inv s → s
               refine ⟨k, ?_, ?_⟩
               · rw [h3]; simp [upd, Ne.symm hkk, hreg]
               · rw [h3]; simpa [upd, Ne.symm hkk] using hq
+            have hsc3 : SeenClean (recvN 3 s) := by
+              intro j hj
+              by_cases hjk : j = k'
+              · -- the stream just armed: its one token is the armed waker
+                subst hjk
+                have ht := hinv3.tok j (by rw [h3]; simp [upd])
+                rw [h3] at ht ⊢
+                simp [evs, armedN, inHand, handKey, upd] at ht ⊢
+                omega
+              · rw [h3] at hj ⊢
+                simp at hj
+                rcases hj with hj | hj
+                · exact absurd hj hjk
+                · exact hrestclean j (by simpa using hj)
             obtain ⟨n, hn, hp, ho⟩ := ih rest.length (by omega) (recvN 3 s) (by rw [h3]) hinv3 (by rw [h3]) hav
+              (by rw [h3]; exact hex) hsc3
             refine ⟨3 + n, by omega, ?_, ?_⟩
             · rw [recvN_add]; exact hp
             · rw [recvN_add, ho, h3]
       · -- stale event (its stream has gone): dropped, still at A with a shorter heap
         have h1 : step s .recvStep = { s with waker := true, heap := rest } := by
-          simp [step, doRecv, hpc, doA, hpop, hk']
+          rw [hA]; simp [doAcore, hpop, hk']
         have hinv1 : Inv (step s .recvStep) := step_inv s _ hinv
         have hav : Avail (step s .recvStep) := ⟨k, by rw [h1]; exact hreg, by rw [h1]; exact hq⟩
+        have hsc1 : SeenClean (step s .recvStep) := by
+          rw [h1]; intro j hj; exact hrestclean j hj
         obtain ⟨n, hn, hp, ho⟩ := ih rest.length (by omega) (step s .recvStep) (by rw [h1]) hinv1
-          (by rw [h1]; exact hpc) hav
+          (by rw [h1]; exact hpc) hav (by rw [h1]; exact hex) hsc1
         refine ⟨1 + n, by omega, ?_, ?_⟩
         · rw [recvN_add]; exact hp
         · rw [recvN_add]; simp only [recvN]; rw [ho, h1]
 
-/-- **progress**: whenever a registered stream holds a complete item, a receiver that polls
-(and is not interrupted) returns `Ready` within `3·|heap| + 1` sections -/
-theorem progress (s : St) (hinv : Inv s) (hpc : s.pc = .idle ∨ s.pc = .parked) (hav : Avail s) :
+/-- **progress**: whenever a registered stream holds a complete item, a receiver that polls —
+with budget to do so — returns `Ready` within `3·|heap|` sections -/
+theorem progress (s : St) (hinv : Inv s) (hpc : s.pc = .idle ∨ s.pc = .parked) (hav : Avail s)
+    (hex : s.exhausted = false) :
     ∃ n, n ≤ 3 * s.heap.length ∧
       (recvN n (step s .pollStart)).pc = .idle ∧
       (recvN n (step s .pollStart)).out.length = s.out.length + 1 := by
-  have h1 : step s .pollStart = { s with pc := .a, notified := false } := by
+  have h1 : step s .pollStart = { s with pc := .a, notified := false, seen := [] } := by
     rcases hpc with h | h <;> simp [step, doPollStart, h]
   have hinv1 : Inv (step s .pollStart) := step_inv s _ hinv
   have := progress_aux s.heap.length (step s .pollStart) (by rw [h1]) hinv1 (by rw [h1])
     (by obtain ⟨k, a, b⟩ := hav; exact ⟨k, by rw [h1]; exact a, by rw [h1]; exact b⟩)
+    (by rw [h1]; exact hex) (by rw [h1]; intro j hj; simp at hj)
   rw [h1] at this ⊢
   exact this
+
+/-- **no spin**: when the budget is exhausted, a stream that has just returned `Pending` in this
+call is not polled again in this call — the receiver yields (parks, notified and woken), so the
+executor can run and refresh the budget.  (Before the repair the loop re-polled the self-waking
+stream for ever: a livelock at 100 % CPU, reproduced on the real runtime.) -/
+theorem no_spin (s : St) (t k : Nat) (rest : List (Nat × Nat)) (hpc : s.pc = .a)
+    (hpop : popMin s.heap = some ((t, k), rest)) (hseen : s.seen.contains k = true) :
+    (step s .recvStep).pc = .parked ∧ (step s .recvStep).notified = true ∧
+    (step s .recvStep).wakes = s.wakes + 1 ∧ (step s .recvStep).heap = s.heap := by
+  have hmem : k ∈ s.seen := by simpa using hseen
+  simp [step, doRecv, hpc, doA, hpop, hmem, yieldNow]
+
+/-- … and an exhausted poll of a stream puts it on the `seen` list with its event queued again,
+so the next section A is exactly the situation of `no_spin`. -/
+theorem exhausted_poll_is_seen (s : St) (t k : Nat) (hpc : s.pc = .b t k) (hex : s.exhausted = true) :
+    let s2 := step (step s .recvStep) .recvStep
+    s2.pc = .a ∧ s2.seen = k :: s.seen ∧ s2.heap = (t, k) :: s.heap := by
+  simp [step, doRecv, hpc, doB, hex, doBex, fire, doC]
 
 /-- **wake-up**: a parked, un-notified receiver is woken by the next arrival on a registered
 stream, by a peer closing, and by a new peer being inserted -/
